@@ -34,7 +34,7 @@
 
 use self::errors::*;
 use crate::temporal::ym_duration::FeelYearsAndMonthsDuration;
-use crate::temporal::{after, after_or_equal, before, before_or_equal, between, equal, weekday, FeelDateTime, FeelTime};
+use crate::temporal::{weekday, FeelDateTime, FeelTime};
 use crate::FeelNumber;
 use chrono::{DateTime, Datelike, FixedOffset, Local};
 use dmntk_common::DmntkError;
@@ -154,41 +154,36 @@ impl FeelDate {
     let today = Local::today();
     Self(today.year(), today.month() as u8, today.day() as u8)
   }
+  /// Compares two dates by year, month and day; for calendar dates this is the order
+  /// of their instants at UTC midnight, for every year (not only those chrono can represent).
+  fn compare(&self, other: &Self) -> Ordering {
+    (self.0, self.1, self.2).cmp(&(other.0, other.1, other.2))
+  }
   ///
   pub fn equal(&self, other: &Self) -> Option<bool> {
-    let midnight = FeelTime::utc(0, 0, 0, 0);
-    equal(&FeelDateTime(self.clone(), midnight.clone()), &FeelDateTime(other.clone(), midnight))
+    Some(self.compare(other) == Ordering::Equal)
   }
   ///
   pub fn before(&self, other: &Self) -> Option<bool> {
-    let midnight = FeelTime::utc(0, 0, 0, 0);
-    before(&FeelDateTime(self.clone(), midnight.clone()), &FeelDateTime(other.clone(), midnight))
+    Some(self.compare(other) == Ordering::Less)
   }
   ///
   pub fn before_or_equal(&self, other: &Self) -> Option<bool> {
-    let midnight = FeelTime::utc(0, 0, 0, 0);
-    before_or_equal(&FeelDateTime(self.clone(), midnight.clone()), &FeelDateTime(other.clone(), midnight))
+    Some(self.compare(other) != Ordering::Greater)
   }
   ///
   pub fn after(&self, other: &Self) -> Option<bool> {
-    let midnight = FeelTime::utc(0, 0, 0, 0);
-    after(&FeelDateTime(self.clone(), midnight.clone()), &FeelDateTime(other.clone(), midnight))
+    Some(self.compare(other) == Ordering::Greater)
   }
   ///
   pub fn after_or_equal(&self, other: &Self) -> Option<bool> {
-    let midnight = FeelTime::utc(0, 0, 0, 0);
-    after_or_equal(&FeelDateTime(self.clone(), midnight.clone()), &FeelDateTime(other.clone(), midnight))
+    Some(self.compare(other) != Ordering::Less)
   }
   ///
   pub fn between(&self, left: &Self, right: &Self, left_closed: bool, right_closed: bool) -> Option<bool> {
-    let midnight = FeelTime::utc(0, 0, 0, 0);
-    between(
-      &FeelDateTime(self.clone(), midnight.clone()),
-      &FeelDateTime(left.clone(), midnight.clone()),
-      &FeelDateTime(right.clone(), midnight),
-      left_closed,
-      right_closed,
-    )
+    let left_ok = if left_closed { self.after_or_equal(left) } else { self.after(left) };
+    let right_ok = if right_closed { self.before_or_equal(right) } else { self.before(right) };
+    left_ok.zip(right_ok).map(|(l, r)| l && r)
   }
   ///
   pub fn ym_duration(&self, other: &FeelDate) -> FeelYearsAndMonthsDuration {
